@@ -116,6 +116,9 @@ func (lc *linCtx) lenVar(x ssa.Value) linExpr {
 	name := "len:" + lc.id(x)
 	e := linVar(name)
 	lc.facts = append(lc.facts, e) // len >= 0
+	if prm, ok := lc.strip(x).(*ssa.Parameter); ok && lc.trust && lc.root == nil {
+		lc.bindParams(prm.Parent())
+	}
 	// parallel slices: fields of one struct that only ever grow together have the same length
 	if n, fi := sliceFieldOf(lc.strip(x)); n != nil && lc.c != nil {
 		own := "." + n.Underlying().(*types.Struct).Field(fi).Name() + "))"
@@ -550,13 +553,25 @@ func (lc *linCtx) bindParams(fn *ssa.Function) {
 	if len(callers) == 0 || len(callers) > 6 {
 		return
 	}
-	var ints []int
+	var ints, seqs []int
 	for i, p := range fn.Params {
 		if isIntType(p.Type()) {
 			ints = append(ints, i)
 		}
+		// the length of a slice / string parameter is the length of what the caller passes
+		switch u := p.Type().Underlying().(type) {
+		case *types.Slice:
+			seqs = append(seqs, i)
+		case *types.Basic:
+			if u.Info()&types.IsString != 0 {
+				seqs = append(seqs, i)
+			}
+		}
 	}
-	if len(ints) == 0 {
+	if len(callers) == 1 {
+		seqs = nil // a single caller: the parameter is named after its argument already
+	}
+	if len(ints) == 0 && len(seqs) == 0 {
 		return
 	}
 	zs := map[int]linExpr{}
@@ -564,6 +579,10 @@ func (lc *linCtx) bindParams(fn *ssa.Function) {
 		z := linVar(fmt.Sprintf("p:%s.%s", FuncName(fn), fn.Params[i].Name()))
 		zs[i] = z
 		lc.vars[fn.Params[i]] = z
+	}
+	ls := map[int]linExpr{}
+	for _, i := range seqs {
+		ls[i] = linVar("len:" + lc.id(fn.Params[i]))
 	}
 	var alts []linAlt
 	for ci, cs := range callers {
@@ -576,6 +595,10 @@ func (lc *linCtx) bindParams(fn *ssa.Function) {
 		for _, i := range ints {
 			a := sub.of(args[i])
 			alt = append(alt, geq(zs[i], a), geq(a, zs[i]))
+		}
+		for _, i := range seqs {
+			a := sub.lenVar(args[i])
+			alt = append(alt, geq(ls[i], a), geq(a, ls[i]))
 		}
 		if top := topFunc(cs.Parent()); top.Object() == nil || !top.Object().Exported() || true {
 			sub.blockFacts(cs.Block())
@@ -966,6 +989,9 @@ func (c *Ctx) linInRange(ins ssa.Instruction, base, lo, hi ssa.Value, isIndex bo
 		if arr, isArr := deref(base.Type()).Underlying().(*types.Array); isArr {
 			ln = linConst(arr.Len())
 		}
+	}
+	if arr, isArr := base.Type().Underlying().(*types.Array); isArr {
+		ln = linConst(arr.Len()) // an array value
 	}
 	var elo, ehi linExpr
 	if lo != nil {
